@@ -158,11 +158,22 @@ impl ConnectionManager {
                     }
                 },
                 Some(connecting_output) = self.pending_connections.join_next() => {
-                    self.handle_connecting_result(connecting_output.unwrap());
+                    match connecting_output {
+                        Ok(connecting_output) => self.handle_connecting_result(connecting_output),
+                        // The task was cancelled from the outside, i.e. the runtime is shutting down
+                        Err(e) if e.is_cancelled() => {},
+                        // If a task panics, just propagate it
+                        Err(e) => std::panic::resume_unwind(e.into_panic()),
+                    }
                 },
                 Some(connection_handler_output) = self.connection_handlers.join_next() => {
-                    // If a task panics, just propagate it
-                    connection_handler_output.unwrap();
+                    match connection_handler_output {
+                        Ok(()) => {},
+                        // The task was cancelled from the outside, i.e. the runtime is shutting down
+                        Err(e) if e.is_cancelled() => {},
+                        // If a task panics, just propagate it
+                        Err(e) => std::panic::resume_unwind(e.into_panic()),
+                    }
                 },
             }
         }
